@@ -66,6 +66,9 @@ CHECKS = {
  "C10": dict(cat="model_checking", tech="TLA+ UdpBuf spec (recycled buffers modelled physically, recv and parse threads): TLC exhaustive over all Alloc/Recv/Parse/Free interleavings of all datagram-class sequences; the sequences are emitted and sent to a real UDPServerTransport; Trace_Udp judges delivery, content, provenance and buffer ownership from the pool/udp hooks",
     text="UdpBuf.tla: all sequences of 3 (quick) / 4 (thorough) datagrams over 6 classes x every interleaving of the two goroutines: Isolation, Discard, DeliveredAll, OneHolder hold with the decoder limited to the first n bytes and Isolation is violated by the pinned whole-buffer decoder. On the real code every sequence plus random ones (3-62 datagrams of 20 B - 60 KiB, any cut offset, over/under-declared lengths, 1-3 sockets) go through a real socket; deliveries are serialised after the burst; each body byte encodes its datagram so that the provenance set is observed.",
     note=TB + "kernel drops before udp.recv are not charged; buffer identities from the pool.* / udp.* hooks.", ref="5/C10"),
+ "C14": dict(cat="model_checking", tech="TLA+ MC_Codec: TLC enumerates the bounded grammar of typed header values (each AST an initial state) and emits it; each AST is rendered with seeded tokens and pushed through the real decoders/encoders; Trace_Codec (TLC) judges alpha(String(Parse(text))) = Norm(alpha(text)), the fixpoint, and the accessors",
+    text="Exhaustive over the bounded grammar (494k ASTs quick / several million thorough; sampled by stride for execution): name-addr and bare addr-spec, display names, sip/sips/tel/urn, user[:password], IPv4/name hosts, ports, URI parameter sequences over {valued, valueless, lr, %-valued}, URI headers incl. empty values, header parameter sequences, Via lists with parameter sequences; each executed through ParseFromSpec/ParseTo/ParseRoute/ParseRecordRoute/ParseNameAddr/ParseAddrSpec/ParseSipURI/ParseVia and a whole Message; random larger values. IPv6 references and user parts with ';' or '?' are generated and reported as KNOWN-FINDING (the property says so).",
+    note=TB + "TLC's contribution to the design is small for a codec; the verdict is TLC's on alpha of the real results; the Via default-port normalisation is accepted.", ref="5/C14"),
 }
 NA_REASON = "check not built yet (work in progress; see DESIGN.md section 9)"
 
